@@ -4,6 +4,7 @@ import (
 	"context"
 	"fmt"
 	"math/rand"
+	"runtime"
 	"sort"
 	"sync"
 	"sync/atomic"
@@ -572,21 +573,34 @@ func (a *adversary) isFresh(w *world, id string) bool {
 
 func (a *adversary) step() {
 	w := a.mon.worlds[a.rng.Intn(len(a.mon.worlds))]
+	// Connection churn between the plays: the faulty member drops (and maybe re-opens) its
+	// connections to some members; now and then a pair of other members loses its connection too.
+	switch y := a.rng.Intn(100); {
+	case y < 12:
+		a.dropConns(w, a.subset(a.honest(), true), a.rng.Intn(2) == 0)
+	case y < 16:
+		hs := a.honest2(false)
+		if w.net.Disconnect(a.peers[hs[0]], a.peers[hs[1]]) > 0 {
+			a.count("honest_pair_disconnects", 1)
+		}
+	}
 	x := a.rng.Intn(100)
 	switch {
-	case x < 9:
+	case x < 8:
 		a.playOwnBroadcast(w, a.pickID(w, false), "own-broadcast")
-	case x < 19:
+	case x < 16:
 		a.playEquivocate(w, a.pickID(w, false))
-	case x < 33:
+	case x < 28:
 		a.playConcurrentEquivocate(w, a.pickID(w, true))
-	case x < 47:
+	case x < 40:
+		a.playReconnectEquivocate(w, a.pickID(w, true))
+	case x < 52:
 		a.playCollision(w)
-	case x < 59:
+	case x < 63:
 		a.playRelay(w)
-	case x < 68:
+	case x < 71:
 		a.playRelayCosigned(w)
-	case x < 77:
+	case x < 79:
 		a.playCrossSession(w)
 	case x < 90:
 		a.playManip(w)
@@ -859,6 +873,151 @@ func (a *adversary) playCollision(w *world) {
 			}
 		}
 		a.sendMsg(w, to, fullMsg{world: w.idx, sender: a.me, id: idY, any: y, sigs: sigs, tag: tagY}, label)
+	}
+}
+
+// dropConns closes every connection between the faulty member and the given members (their
+// network notifees fire) and, if reopen, opens a new one right away; otherwise the next stream dials.
+func (a *adversary) dropConns(w *world, members []int, reopen bool) {
+	for _, m := range members {
+		closed := w.net.Disconnect(a.peers[a.me], a.peers[m])
+		if closed > 0 {
+			a.count("adv_connections_dropped", int64(closed))
+		}
+		res := "dial-on-next-stream"
+		if reopen {
+			w.net.Connect(a.peers[a.me], a.peers[m])
+			res = "reconnected"
+		}
+		a.addTrace(step{Op: "disconnect", World: w.idx, To: m, Result: res})
+	}
+}
+
+// playReconnectEquivocate: equivocation across connection lifetimes. The faulty member controls
+// when its connections close; whatever a member signed for (faulty member, id) before must still
+// bind it afterwards.
+//   - all-then-all: payload after payload, every member is asked, all connections dropped in between
+//   - per-member: per member: ask for X, drop the connection, ask for Y (…)
+//   - one-of-two-connections: a second connection is opened first and only one of them is dropped
+//   - flapping: a goroutine keeps dropping and re-opening the connections while the requests run
+//
+// Whatever lists became complete are delivered, different payloads to different members, with
+// further disconnects between the deliveries.
+func (a *adversary) playReconnectEquivocate(w *world, id string) {
+	variant := []string{"all-then-all", "all-then-all", "per-member", "one-of-two-connections", "flapping"}[a.rng.Intn(5)]
+	label := "reconnect-equivocation/" + variant
+	k := 2 + a.rng.Intn(2)
+	var ps []*payload
+	for i := 0; i < k; i++ {
+		ps = append(ps, a.newPayload(kindOfID(id)))
+	}
+	a.count("adv_reconnect_equivocations", 1)
+	me := a.peers[a.me]
+	early := a.rng.Intn(3) == 0 // deliver the first payload before the connections drop
+	deliverFirst := func() {
+		if sigs, complete := a.buildSigs(w, id, ps[0].encs[0], "random", nil); complete {
+			a.sendMsg(w, a.honest()[a.rng.Intn(a.mon.n-1)], fullMsg{world: w.idx, sender: a.me, id: id, any: ps[0].encs[0], sigs: sigs, tag: ps[0].Tag}, label)
+		}
+	}
+	switch variant {
+	case "all-then-all":
+		for i, p := range ps {
+			for _, to := range a.honest2(false) {
+				a.sigReq(w, to, id, p.encs[0], p.Tag, label)
+			}
+			if i == 0 && early {
+				deliverFirst()
+			}
+			if i < len(ps)-1 {
+				a.dropConns(w, a.honest2(a.rng.Intn(4) == 0), a.rng.Intn(2) == 0)
+			}
+		}
+	case "per-member":
+		for _, to := range a.honest2(false) {
+			for i, p := range ps {
+				a.sigReq(w, to, id, p.encs[0], p.Tag, label)
+				if i < len(ps)-1 {
+					a.dropConns(w, []int{to}, a.rng.Intn(2) == 0)
+				}
+			}
+		}
+	case "one-of-two-connections":
+		for _, to := range a.honest() {
+			w.net.Connect(me, a.peers[to])
+			if w.net.Connections(me, a.peers[to]) < 2 {
+				w.net.Connect(me, a.peers[to])
+			}
+		}
+		for i, p := range ps {
+			for _, to := range a.honest2(false) {
+				a.sigReq(w, to, id, p.encs[0], p.Tag, label)
+			}
+			if i == 0 {
+				for _, to := range a.honest() {
+					for w.net.Connections(me, a.peers[to]) > 1 {
+						w.net.DisconnectOne(me, a.peers[to])
+						a.count("adv_connections_dropped_while_another_stays", 1)
+					}
+				}
+			}
+		}
+	default: // flapping
+		stop := make(chan struct{})
+		var wg sync.WaitGroup
+		wg.Add(1)
+		hs := a.honest()
+		go func() {
+			defer wg.Done()
+			for i := 0; ; i++ {
+				select {
+				case <-stop:
+					return
+				default:
+				}
+				m := hs[i%len(hs)]
+				if w.net.Disconnect(me, a.peers[m]) > 0 {
+					a.count("adv_connections_dropped", 1)
+				}
+				if i%2 == 0 {
+					w.net.Connect(me, a.peers[m])
+				}
+				runtime.Gosched()
+			}
+		}()
+		for _, p := range ps {
+			for _, to := range a.honest2(false) {
+				a.sigReq(w, to, id, p.encs[0], p.Tag, label)
+			}
+		}
+		close(stop)
+		wg.Wait()
+	}
+	var full []fullMsg
+	for _, p := range ps {
+		sigs, complete := a.buildSigs(w, id, p.encs[0], kit.Pick(a.rng, fillers), nil)
+		m := fullMsg{world: w.idx, sender: a.me, id: id, any: p.encs[0], sigs: sigs, tag: p.Tag}
+		if complete {
+			full = append(full, m)
+			continue
+		}
+		a.sendMsg(w, a.honest()[a.rng.Intn(a.mon.n-1)], m, label+"-incomplete")
+	}
+	if len(full) > 1 {
+		a.count("adv_reconnect_equivocation_extra_full_lists", int64(len(full)-1))
+	}
+	for i, to := range a.honest2(false) {
+		if len(full) == 0 {
+			break
+		}
+		if a.rng.Intn(3) == 0 {
+			a.dropConns(w, []int{to}, a.rng.Intn(2) == 0)
+		}
+		a.sendMsg(w, to, full[(i+len(full)-1)%len(full)], label)
+	}
+	if len(full) > 0 {
+		a.mu.Lock()
+		a.own = append(a.own, full[0])
+		a.mu.Unlock()
 	}
 }
 
